@@ -14,6 +14,7 @@ def genFacts : Facts :=
     invokeCopies := Generated.c17InvokeCopies
     iterateSkipContinues := Generated.c17IterateSkipContinues
     iterateStopReturns := Generated.c17IterateStopReturns
+    iterateOnlyNexts := Generated.c17IterateOnlyNexts
     glomitReversed := Generated.c17GlomitReversed
     callbacks := Generated.c17Callbacks }
 
